@@ -512,6 +512,75 @@ c15_builder! {c15_builder_n1, 1}
 c15_builder! {c15_builder_n2, 2}
 c15_builder! {c15_builder_n3, 3}
 
+harness! {
+    /// kind=bounded tier=quick bound="zero-sized element type WITH a destructor (Zd), N in {0,1,2,3}: ArrayBuilder with k <= N pushes then build (if full) or drop; ArrayConsumer with f front takes and b back takes (f+b <= N) then drop; every element dropped exactly once (counted)"
+    #[kani::unwind(6)]
+    fn c15_zst_drop_elements(s) {
+        fn builder<S: Src, const N: usize>(s: &mut S) {
+            reset();
+            let mut b = ArrayBuilder::<Zd, N>::new();
+            let k = s.upto(N);
+            let mut j = 0;
+            while j < N {
+                if j < k {
+                    b.push(Zd);
+                }
+                j += 1;
+            }
+            chk!(s, zdrops() == 0 && b.len() == k, "C15.builder.zst.push_keeps_elements_alive");
+            if k == N && s.bool() {
+                let arr: [Zd; N] = b.build();
+                chk!(s, zdrops() == 0, "C15.builder.zst.build_hands_elements_over_alive");
+                drop(arr);
+                chk!(s, zdrops() as usize == N, "C15.builder.zst.built_elements_dropped_once_by_the_caller");
+            } else {
+                drop(b);
+                chk!(s, zdrops() as usize == k, "C15.builder.zst.drop_drops_each_pushed_element_once");
+            }
+        }
+        fn consumer<S: Src, const N: usize>(s: &mut S, arr: [Zd; N]) {
+            reset();
+            let mut c = ArrayConsumer::new(arr);
+            let f = s.upto(N);
+            let bk = s.upto(N - f);
+            let mut taken = 0usize;
+            let mut j = 0;
+            while j < N {
+                if j < f {
+                    if let Some(x) = c.next() {
+                        taken += 1;
+                        drop(MD::into_inner(x));
+                    }
+                } else if j < f + bk {
+                    if let Some(x) = c.next_back() {
+                        taken += 1;
+                        drop(MD::into_inner(x));
+                    }
+                }
+                j += 1;
+            }
+            chk!(s, taken == f + bk && zdrops() as usize == taken, "C15.consumer.zst.taken_elements_dropped_once_by_the_caller");
+            chk!(s, c.as_slice().len() == N - taken, "C15.consumer.zst.as_slice_is_the_rest");
+            drop(c);
+            chk!(s, zdrops() as usize == N, "C15.consumer.zst.drop_drops_the_rest_once");
+        }
+        let n = s.upto(3);
+        let which = s.bool();
+        cov!(s, n == 3 && which, "C15.cover.zst_builder_len3");
+        cov!(s, n == 3 && !which, "C15.cover.zst_consumer_len3");
+        match (n, which) {
+            (0, true) => builder::<S, 0>(s),
+            (1, true) => builder::<S, 1>(s),
+            (2, true) => builder::<S, 2>(s),
+            (_, true) => builder::<S, 3>(s),
+            (0, false) => consumer::<S, 0>(s, []),
+            (1, false) => consumer::<S, 1>(s, [Zd]),
+            (2, false) => consumer::<S, 2>(s, [Zd, Zd]),
+            (_, false) => consumer::<S, 3>(s, [Zd, Zd, Zd]),
+        }
+    }
+}
+
 macro_rules! c15_builder_clone {
     ($name:ident, $n:literal) => {
         harness! {
